@@ -17,7 +17,10 @@
     - the write ORDER is tied to the Go source by the translator: the theorems are parametric
       in [skels_ok sk = true], and gen/Tie_C13.v evaluates the predicates on the skeletons
       regenerated from the source; the write KINDS and ids are tied by the correspondence
-      harness (harness/c13.go: recorded write trace of the real code vs [op_writes]).
+      harness (harness/c13*.go: recorded store-write trace of the REAL operations - cmd/wrgl
+      commit, commitWithTable, runMerge through the verif export hooks, fetch.Fetch against the
+      reference server, prune.Prune, ref.DeleteHead - vs [op_writes]; only the batch with
+      generator-chosen / hostile packfile orders re-enacts fetch's ref rule).
     - pull = fetch followed by a merge operation: covered as a history (C13_history_consistent);
       the re-run theorems are stated per constituent operation.  Fast-forward merge and
       DeleteHead are single writes (a crash is before or after them).  The re-run theorem for fetch assumes
